@@ -538,6 +538,40 @@ func (c *ctx) clauses(doc []byte, s sched, res decRes, line string) {
 	}
 }
 
+// maskBracketed is the caller's bracket automaton over the returned masks (the same automaton
+// as Model/StylingNest.lean maskStep): a span start bit pushes its kind, an end bit must name
+// the innermost open span, the span style bits are the open spans (plus the one just ended),
+// a token with a newline leaves nothing open, nothing is open at the end.
+func maskBracketed(evs []event) bool {
+	var stack []int
+	for _, e := range evs {
+		for k, sk := range spanKinds {
+			if e.style&sk.start != 0 {
+				stack = append(stack, k)
+			}
+			if e.style&sk.en != 0 {
+				if len(stack) == 0 || stack[len(stack)-1] != k {
+					return false
+				}
+				stack = stack[:len(stack)-1]
+			}
+		}
+		for k, sk := range spanKinds {
+			open := e.style&sk.en != 0
+			for _, s := range stack {
+				open = open || s == k
+			}
+			if open != (e.style&sk.style != 0) {
+				return false
+			}
+		}
+		if bytes.IndexByte(e.data, '\n') >= 0 && len(stack) > 0 {
+			return false
+		}
+	}
+	return len(stack) == 0
+}
+
 // doc runs one document under the reference delivery and the given schedules,
 // emits the protocol lines and evaluates the oracle.
 func (c *ctx) doc(doc []byte, scheds []sched, modelLines int, class string) {
@@ -567,6 +601,10 @@ func (c *ctx) doc(doc []byte, scheds []sched, modelLines int, class string) {
 		class += depthSuffix(ref.evs)
 	}
 	r.Case("doc "+hd, nontriv, class)
+	if len(doc) <= 200 && ref.panic == "" && !ref.hung && ref.end == "eof" {
+		// the Lean automaton on the model's masks vs the same automaton on the real masks
+		r.Line("brk "+hd, common.B(maskBracketed(ref.evs)))
+	}
 	refObs := ref.obs()
 	for k, s := range scheds {
 		res := decode(doc, s)
